@@ -22,10 +22,10 @@ fn fail(kind: &str, detail: String) -> ! {
 }
 
 fn note(r: &mut Rng) -> (SecretMeta, Secret, String, String) {
-    let label = format!("label-{}", r.below(100000));
-    let text = format!("text-{}", r.below(100000));
+    let label = format!("label-{}", 100000 + r.below(900000));
+    let text = format!("text-{}", 100000 + r.below(900000));
     let mut ud = UserData::default();
-    if r.below(2) == 0 { ud = UserData::new_comment(format!("c{}", r.below(1000))); }
+    if r.below(2) == 0 { ud = UserData::new_comment(format!("comment-of-{}", text)); }
     (SecretMeta::new(label.clone(), SecretType::Note), Secret::Note { text: text.clone().into(), user_data: ud }, label, text)
 }
 
@@ -55,19 +55,50 @@ async fn compare(tag: &str, backend: &str, f: &Folder, model: &Model, name: &str
     }
 }
 
-pub async fn run(cases: usize, seed: u64) {
+fn scan_dir(dir: &std::path::Path, markers: &[String], backend: &str, case: usize, trace: &Vec<String>) {
+    // every byte persisted under the storage directory (vault file, event log file, database file, WAL, journal)
+    let mut stack = vec![dir.to_path_buf()];
+    while let Some(d) = stack.pop() {
+        for e in std::fs::read_dir(&d).unwrap() {
+            let e = e.unwrap();
+            let p = e.path();
+            if p.is_dir() { stack.push(p); continue; }
+            let bytes = std::fs::read(&p).unwrap();
+            for m in markers {
+                let mb = m.as_bytes();
+                if mb.len() >= 6 && bytes.windows(mb.len()).any(|w| w == mb) {
+                    fail("plaintext-in-storage", format!("\"backend\":\"{}\",\"case\":{},\"trace\":{:?},\"file\":{:?},\"plaintext\":{:?}", backend, case, trace, p.file_name().unwrap(), m));
+                }
+            }
+        }
+    }
+}
+
+pub async fn run(cases: usize, seed: u64) { run_mode(cases, seed, false).await }
+
+/// C03 bounded stand-in: the same histories, and after every step no label, note text, comment
+/// or folder password may occur in any file under the storage directory.
+pub async fn run_scan(cases: usize, seed: u64) { run_mode(cases, seed, true).await }
+
+async fn run_mode(cases: usize, seed: u64, scan: bool) {
     let mut r = Rng(seed | 1);
     for case in 0..cases {
         for backend in ["filesystem", "database"] {
             let dir = tempfile::tempdir().unwrap();
-            let password: secrecy::SecretString = format!("pw-{}-{}", case, r.below(1000000)).into();
+            let pw_text = format!("pw-{}-{}", case, r.below(1000000));
+            let mut markers: Vec<String> = vec![pw_text.clone()];
+            let password: secrecy::SecretString = pw_text.into();
             let vault = VaultBuilder::new().build(BuilderCredentials::Password(password.clone(), None)).await.unwrap();
             let folder_id: VaultId = *vault.id();
             let account = AccountId::random();
             let key: AccessKey = password.into();
             // open (and later re-open) the folder from storage
             let fs_path = dir.path().join("folder.vault");
-            let client = sos_database::open_memory().await.unwrap();
+            let client = if scan && backend == "database" {
+                let mut c = sos_database::open_file(dir.path().join("accounts.db")).await.unwrap();
+                sos_database::migrations::migrate_client(&mut c).await.unwrap();
+                c
+            } else { sos_database::open_memory().await.unwrap() };
             let paths = Paths::new_client(dir.path());
             if backend == "filesystem" {
                 std::fs::write(&fs_path, encode(&vault).await.unwrap()).unwrap();
@@ -101,6 +132,7 @@ pub async fn run(cases: usize, seed: u64) {
                         let id = uuid::Uuid::from_bytes(r.arr());
                         let (m, s, l, t) = note(&mut r);
                         f.create_secret(&SecretRow::new(id, m, s)).await.unwrap();
+                        markers.push(l.clone()); markers.push(t.clone());
                         model.insert(id, (l, t));
                         trace.push(format!("create(#{})", model.len()));
                     }
@@ -110,6 +142,7 @@ pub async fn run(cases: usize, seed: u64) {
                             let id = *model.keys().nth(k).unwrap();
                             let (m, s, l, t) = note(&mut r);
                             f.update_secret(&id, m, s).await.unwrap();
+                            markers.push(l.clone()); markers.push(t.clone());
                             model.insert(id, (l, t));
                             trace.push(format!("update(position {} of {})", k, model.len()));
                         }
@@ -127,6 +160,9 @@ pub async fn run(cases: usize, seed: u64) {
                         if r.below(2) == 0 {
                             name = format!("folder-{}", r.below(1000));
                             f.rename_folder(name.clone()).await.unwrap();
+                            // self-test of the scanner: the folder NAME is legitimately stored in the clear,
+                            // so with SOS_SCAN_SELFTEST=1 the scan must report it (checked by the C03 check)
+                            if scan && std::env::var("SOS_SCAN_SELFTEST").is_ok() { markers.push(name.clone()); }
                             trace.push("rename".into());
                         } else {
                             let fl = VaultFlags::from_bits_truncate(r.next() & 0x3ff);
@@ -136,6 +172,7 @@ pub async fn run(cases: usize, seed: u64) {
                         }
                     }
                 }
+                if scan { scan_dir(dir.path(), &markers, backend, case, &trace); }
                 compare("live", backend, &f, &model, &name, flags, &trace, case).await;
                 // reload from persisted storage, unlock again
                 let mut g = open().await;
